@@ -257,3 +257,40 @@ def synth(repo):
     res.detail = {"skeletons": sorted(skel)}
     res.analysed = [SYN]
     return res
+
+
+def synthmark(repo):
+    """R-SYNTHMARK (C16): `_mark_as_synthetic(x)` stamps x *and everything below it* as compiler-generated; errors located
+    there are deferred and printed as `[compiler bug]`.  A node whose own source_location the same function has just
+    set to a user-written location (the replaced `$next` keyword keeps the position of the `$next` token) must
+    therefore not be handed to `_mark_as_synthetic` afterwards — only its synthesised parts may."""
+    res = RuleResult("R-SYNTHMARK")
+    m = repo.mod(SYN)
+    ncalls = 0
+    for f in m.top_funcs():
+        alias = {}
+        for n in walk_no_nested_funcs(f.node):
+            if isinstance(n, ast.Assign) and isinstance(n.targets[0], ast.Name) and isinstance(n.value, ast.Call) \
+                    and (call_name(n.value) or "").endswith(("ir_data_utils.builder", "ir_data_utils.reader")) and n.value.args \
+                    and isinstance(n.value.args[0], ast.Name):
+                alias[n.targets[0].id] = n.value.args[0].id
+        root = lambda name: alias.get(name, name)
+        restored = {}
+        for n in walk_no_nested_funcs(f.node):
+            if isinstance(n, ast.Assign) and isinstance(n.targets[0], ast.Attribute) and n.targets[0].attr == "source_location" \
+                    and isinstance(n.targets[0].value, ast.Name) and "synthetic" not in ast.unparse(n.value):
+                restored[root(n.targets[0].value.id)] = n.lineno
+        for n in walk_no_nested_funcs(f.node):
+            if isinstance(n, ast.Call) and isinstance(n.func, ast.Name) and n.func.id == "_mark_as_synthetic" and n.args:
+                ncalls += 1
+                res.instances += 1
+                a = n.args[0]
+                if isinstance(a, ast.Name) and root(a.id) in restored and restored[root(a.id)] <= n.lineno:
+                    res.add(f"{SYN}|{f.name}|{root(a.id)}", f"{f.name} sets `{root(a.id)}`'s source_location to a user-written location "
+                            f"(line {restored[root(a.id)]}) and then marks the whole node synthetic: errors at that position (the user's own "
+                            "`$next`) are deferred and reported as `[compiler bug]` instead of file:line:column", SYN, n.lineno, f.name)
+    if ncalls < 5:
+        raise AnalysisError(f"synthetics: only {ncalls} _mark_as_synthetic calls found")
+    res.samples = [f"{ncalls} _mark_as_synthetic calls, none on a node whose location was restored"]
+    res.analysed = [SYN]
+    return res
